@@ -227,7 +227,7 @@ def _run(node, tier, seed):
 
 def cases(tier, seed):
     for node in grammar.catalog(tier, continuous=True):
-        if tier == "quick" and node.depth() >= 2 and (hash_name(node.name) % 5):
+        if tier == "quick" and node.depth() >= 2 and (hash_name(node.name) % 9):
             continue
         if tier == "quick" and _n_sites(node) > 6:
             continue
